@@ -49,42 +49,61 @@ fn struct_with(f: &OwnedPtr<Field>, empty: bool, compact: bool) -> Struct {
 //@ prop: C04
 //@ family: K04-struct
 //@ tier: quick
-//@ functions: validators::structs::validate_struct, validate_compact_struct_not_empty, compact_structs_cannot_contain_tags, Struct::fields, Member::is_tagged
-//@ inst: hand-built Struct with 0 or 1 field (two concrete layouts, symbolic selector), the field a real Field behind a WeakPtr
-//@ inputs: is_compact; empty or one field; the field tagged or not (any u32 tag)
-//@ oracle: E018 iff compact and empty; E015 iff compact and the field is tagged; never both (an empty struct has no field); nothing else
+//@ functions: validators::structs::validate_struct, validate_compact_struct_not_empty, compact_structs_cannot_contain_tags, Struct::fields
+//@ inst: hand-built Struct without fields
+//@ inputs: is_compact
+//@ oracle: "compact structs non-empty": E018 iff compact; nothing else
 //@ stubs: std::fmt::format -> empty string
-//@ bound: unwind 6; at most one diagnostic
+//@ bound: unwind 6; concrete shape (a symbolic number of fields makes Struct::fields() allocate a symbolic size: > 11 GB)
 #[kani::proof]
 #[kani::unwind(6)]
 #[kani::stub(std::fmt::format, stub_format)]
-fn k04_struct_compact_rules() {
+fn k04_struct_empty() {
     let compact: bool = kani::any();
-    let empty: bool = kani::any();
+    let f = field(false, 0, true);
+    let s = struct_with(&f, true, compact);
+    let mut diagnostics = Diagnostics::verif_with_capacity(2);
+    validate_struct(&s, &mut diagnostics);
+    kani::cover!(compact, "empty compact struct reachable");
+    kani::cover!(!compact, "empty ordinary struct reachable");
+    let ds = diagnostics.into_inner();
+    assert!(ds.len() == compact as usize, "an empty struct is diagnosed exactly when it is compact");
+    if compact {
+        assert!(ds[0].code() == "E018", "with E018 (compact struct cannot be empty)");
+    }
+    core::mem::forget(ds);
+    core::mem::forget(s);
+    core::mem::forget(f);
+}
+
+//@ prop: C04
+//@ family: K04-struct
+//@ tier: quick
+//@ functions: validators::structs::validate_struct, compact_structs_cannot_contain_tags, Struct::fields, Member::is_tagged
+//@ inst: hand-built Struct with exactly one field behind a WeakPtr
+//@ inputs: is_compact; the field tagged or not (any u32 tag)
+//@ oracle: "compact types untagged": E015 iff compact and the field is tagged; a non-empty struct is never E018; nothing else
+//@ stubs: std::fmt::format -> empty string
+//@ bound: unwind 6; concrete shape
+#[kani::proof]
+#[kani::unwind(6)]
+#[kani::stub(std::fmt::format, stub_format)]
+fn k04_struct_one_field() {
+    let compact: bool = kani::any();
     let tagged: bool = kani::any();
     let tag: u32 = kani::any();
     let f = field(tagged, tag, true);
+    let s = struct_with(&f, false, compact);
     let mut diagnostics = Diagnostics::verif_with_capacity(2);
-    let s;
-    if empty {
-        s = struct_with(&f, true, compact);
-    } else {
-        s = struct_with(&f, false, compact);
-    }
     validate_struct(&s, &mut diagnostics);
-    let e018 = compact && empty;
-    let e015 = compact && !empty && tagged;
-    kani::cover!(e018, "empty compact struct reachable");
-    kani::cover!(e015 && tag == 0, "compact struct with a field tagged 0 reachable");
-    kani::cover!(!compact && !empty && tagged, "tagged field in an ordinary struct accepted reachable");
-    kani::cover!(!compact && empty, "empty ordinary struct accepted reachable");
+    let want = compact && tagged;
+    kani::cover!(want && tag == 0, "compact struct with a field tagged 0 reachable");
+    kani::cover!(!compact && tagged, "tagged field in an ordinary struct accepted reachable");
+    kani::cover!(compact && !tagged, "untagged compact struct accepted reachable");
     let ds = diagnostics.into_inner();
-    assert!(ds.len() == (e018 || e015) as usize, "a compact struct is diagnosed exactly when it is empty or has a tagged field");
-    if e018 {
-        assert!(ds[0].code() == "E018", "empty compact struct: E018");
-    }
-    if e015 {
-        assert!(ds[0].code() == "E015", "tagged field in a compact struct: E015");
+    assert!(ds.len() == want as usize, "a non-empty struct is diagnosed exactly when it is compact and has a tagged field");
+    if want {
+        assert!(ds[0].code() == "E015", "with E015 (compact type cannot contain tagged fields)");
     }
     core::mem::forget(ds);
     core::mem::forget(s);
